@@ -2224,9 +2224,12 @@ func (c *Conn) handleApplicationDataRecord(
 	prepared incomingPacketState,
 ) (bool, packetOutcome, error) {
 	if prepared.header.Epoch == 0 {
-		return false, packetOutcome{
-			responseAlert: &alert.Alert{Level: alert.Fatal, Description: alert.UnexpectedMessage},
-		}, dtlserrors.ErrApplicationDataEpochZero
+		// Application data is never sent unprotected: this record is not the
+		// peer's. It is dropped, not answered - an alert would go to the
+		// genuine peer and end the handshake it is in the middle of.
+		c.log.Debugf("discarded record: %v", dtlserrors.ErrApplicationDataEpochZero)
+
+		return false, packetOutcome{}, nil
 	}
 
 	isLatestSeqNum := prepared.markPacketAsValid()
@@ -2339,7 +2342,10 @@ func (c *Conn) handleIncomingPacket(
 
 	r := &recordlayer.RecordLayer{}
 	if err := r.Unmarshal(prepared.buf); err != nil {
-		if unprotectedLate {
+		// An unprotected record is authenticated by nothing, during the
+		// handshake either: one that does not decode is anybody's, and is
+		// dropped (RFC 6347 section 4.1.2.7).
+		if prepared.header.Epoch == 0 {
 			c.log.Debugf("discarded undecodable unprotected record: %v", err)
 
 			return packetOutcome{}, nil
